@@ -1,12 +1,14 @@
 //! property: C08
 //! unit: V-C08-optics-seed-order
 //! tier: quick
-//! fns: linfa_clustering::optics::OpticsValidParams::transform (the two call sites of get_seeds: a sample hands out reachability distances only once it is itself listed)
+//! fns: linfa_clustering::optics::OpticsValidParams::transform (the two call sites of get_seeds: a sample hands out reachability distances only once it is itself listed; the three places where a sample is listed: listed once and marked processed)
 //@ extract S1 from algorithms/linfa-clustering/src/optics/algorithm.rs anchor "let n = &mut points[points_index];" until "while !seeds.is_empty() {"
 //@ rewrite S1 "&mut points[points_index]" => "points.at_mut(points_index)   /* &mut points[points_index] */"
 //@ extract S2 from algorithms/linfa-clustering/src/optics/algorithm.rs anchor "let n = &mut points[*min_point];" lines 17
 //@ rewrite S2 "&mut points[*min_point]" => "points.at_mut(*min_point)   /* &mut points[*min_point] */"
 //@ rewrite S2 "&*nn" => "&nn"
+//@ extract S3 from algorithms/linfa-clustering/src/optics/algorithm.rs anchor "} else {" block after "while !seeds.is_empty() {"
+//@ rewrite S3 "} else {" => "{   /* } else { : the start sample is not a core sample */"
 //@ expect-fail vacuity_guard_seeds
 use vstd::prelude::*;
 use vstd::iset::ISet;
@@ -20,14 +22,15 @@ impl ObsTok { #[verifier::external_body] pub fn row(&self, i: usize) -> (r: RowT
 pub struct SampleTok { pub index: usize, pub reachability_distance: Option<FT>, pub core_distance: Option<FT> }
 impl SampleTok { #[verifier::external_body] pub fn clone(&self) -> (r: SampleTok) ensures r.index == self.index, r.core_distance == self.core_distance { unimplemented!() } }
 pub struct PointsTok {}
-impl PointsTok { #[verifier::external_body] pub fn at_mut(&mut self, i: usize) -> (r: &mut SampleTok) { unimplemented!() } }
+pub uninterp spec fn at_index(p: PointsTok, i: usize) -> usize;
+impl PointsTok { #[verifier::external_body] pub fn at_mut(&mut self, i: usize) -> (r: &mut SampleTok) ensures r.index == at_index(*old(self), i) { unimplemented!() } }
 pub struct NbrTok {}
 pub struct NnTok {}
 // BTreeSet<usize> `processed`: the samples already listed (every site that pushes a sample onto `result.orderings` inserts it here)
 pub struct ProcTok { pub s: Ghost<ISet<usize>> }
 impl ProcTok { #[verifier::external_body] pub fn insert(&mut self, i: usize) -> (r: bool) ensures final(self).s@ == old(self).s@.insert(i) { unimplemented!() } }
-pub struct OrdTok {}
-impl OrdTok { #[verifier::external_body] pub fn push(&mut self, s: SampleTok) { unimplemented!() } }
+pub struct OrdTok { pub s: Ghost<Seq<usize>> }                     // the indices listed so far, in order
+impl OrdTok { #[verifier::external_body] pub fn push(&mut self, s: SampleTok) ensures final(self).s@ == old(self).s@.push(s.index) { unimplemented!() } }
 pub struct ResTok { pub orderings: OrdTok }
 pub struct SeedsTok {}
 impl SeedsTok {
@@ -46,13 +49,31 @@ impl OpticsV {
         requires processed.s@.contains(sample.index),
     { unimplemented!() }
     // ---- the start sample of a new cluster (first call site), text extracted from /repo on every run ----
-    pub fn start_sample(&self, mut points: PointsTok, points_index: usize, neighbors: NbrTok, observations: ObsTok, mut processed: ProcTok, mut result: ResTok, mut seeds: SeedsTok) {
+    pub fn start_sample(&self, mut points: PointsTok, points_index: usize, neighbors: NbrTok, observations: ObsTok, mut processed: ProcTok, mut result: ResTok, mut seeds: SeedsTok, Ghost(idx): Ghost<usize>) -> (r: (ProcTok, ResTok, bool))
+        requires forall|p: PointsTok, i: usize| #![trigger at_index(p, i)] at_index(p, i) == idx,      // the sample at `points_index` has index `idx` (points[k].index == k)
+        ensures r.2 ==> r.1.orderings.s@ == result.orderings.s@.push(idx) && r.0.s@ == processed.s@.insert(idx),      // a core start sample: listed once, marked processed
+            !r.2 ==> r.1.orderings.s@ == result.orderings.s@ && r.0.s@ == processed.s@,
+    {
+        let mut was_core = false;
 /*@S1*/
+            was_core = true;
         }
+        (processed, result, was_core)
     }
     // ---- a sample taken from the seed list (second call site) ----
-    pub fn seed_sample(&self, mut points: PointsTok, min_point: &usize, i: usize, nn: NnTok, observations: ObsTok, mut processed: ProcTok, mut result: ResTok, mut seeds: SeedsTok) {
+    pub fn seed_sample(&self, mut points: PointsTok, min_point: &usize, i: usize, nn: NnTok, observations: ObsTok, mut processed: ProcTok, mut result: ResTok, mut seeds: SeedsTok, Ghost(idx): Ghost<usize>) -> (r: (ProcTok, ResTok))
+        requires forall|p: PointsTok, i: usize| #![trigger at_index(p, i)] at_index(p, i) == idx,
+        ensures r.1.orderings.s@ == result.orderings.s@.push(idx), r.0.s@ == processed.s@.insert(idx),
+    {
 /*@S2*/
+        (processed, result)
+    }
+    // ---- a start sample that is not a core sample (the `else` branch): listed once, marked processed ----
+    pub fn noise_sample(&self, n: &mut SampleTok, mut processed: ProcTok, mut result: ResTok) -> (r: (ProcTok, ResTok))
+        ensures r.1.orderings.s@ == result.orderings.s@.push(old(n).index), r.0.s@ == processed.s@.insert(old(n).index),
+    {
+/*@S3*/
+        (processed, result)
     }
     pub fn vacuity_guard_seeds(&self, mut processed: ProcTok)
         ensures false,
